@@ -79,6 +79,25 @@ package utils
 //@   safe
 //@ end
 
+// allocating variants: the 8 bytes are the value's own little-endian bits
+//@ func Uint64ToBytesLittleEndian
+//@   props C01 C04
+//@   ensures len(result) == 8 && le64(result) == val
+//@   pure
+//@   safe
+//@ end
+// (these two go through encoding/binary.Write into a bytes.Buffer: ASSUMED)
+//@ func Int64ToBytesLittleEndian
+//@   assumed
+//@   pure
+//@   ensures len(result) == 8 && le64(result) == uint64(signedval)
+//@ end
+//@ func Float64ToBytesLittleEndian
+//@   assumed
+//@   pure
+//@   ensures len(result) == 8 && le64(result) == f64bits(val)
+//@ end
+
 //@ func Uint64ToBytesLittleEndianInplace
 //@   props C01
 //@   requires len(buf) >= 8
@@ -332,4 +351,14 @@ package utils
 //@   props C13
 //@   requires orgId >= 0
 //@   ensures [org-is-its-own-field-of-the-stream-id] uf("dashField1", int64, result) == orgId
+//@ end
+
+// C05 (results of overlapping segments are returned newest first): the k-way
+// merge of already ordered runs.  Generic over the element type and
+// parameterised by a comparator function: outside the verifier's subset, so a
+// BOUNDED stand-in (never counted as proved) exercises the real function on
+// every input within the bound.
+//@ func MergeSortedSlices
+//@   props C05
+//@   bounded utils/mergesortedslices_test.go Test_Bounded_MergeSortedSlices k<=3 runs, each non-decreasing of length<=3 over values 0..3, comparators < and > (85750 inputs): result ordered and a permutation of the inputs
 //@ end
